@@ -400,3 +400,41 @@ def _entries_layout(name, kinds):
 
 _entries_layout('Dwarf_rnglists_entries', RLE_KINDS)
 _entries_layout('Dwarf_loclists_entries', LLE_KINDS)
+
+
+def _cu_header_layout(name):
+    """Dwarf_CU_header / Dwarf_TU_header (7.5.1): the version selects the order and presence of the members;
+    every member is a leaf function of (bytes, offset); unit_type and the type/skeleton members exist from
+    version 5 on (K2 compares the real construct tree with the layout in every configuration)"""
+    lay = Layout(name, None)
+
+    def custom(I, M, stream, owner, ln, exc):
+        from pyvc.ctx import PyExc
+        from pyvc.vals import ArrS, IntS, BoolS, to_int, SRec, Code
+        p, L = to_int(stream.pos), to_int(stream.length)
+        ok = z3.Function('ok!' + name, ArrS, IntS, IntS, BoolS)(stream.arr, L, p)
+        end = z3.Function('end!' + name, ArrS, IntS, IntS)(stream.arr, p)
+        if not I.ctx.branch(ok):
+            raise PyExc(exc if exc != 'ConstructError' else 'FieldError', ln, 'short read in ' + name)
+
+        def leaf(f):
+            return z3.Function('%s.%s' % (name, f), ArrS, IntS, IntS)(stream.arr, p)
+        fields = {f: leaf(f) for f in ('unit_length', 'version', 'debug_abbrev_offset', 'address_size')}
+        v5 = fields['version'] >= 5
+        present = {}
+        ut = z3.Function('%s.unit_type.name' % name, ArrS, IntS, z3.StringSort())(stream.arr, p)
+        fields['unit_type'] = Code(z3.Function('%s.unit_type.isname' % name, ArrS, IntS, BoolS)(stream.arr, p), ut, leaf('unit_type.raw'))
+        present['unit_type'] = v5
+        for f in ('dwo_id', 'type_signature', 'type_offset'):
+            fields[f] = leaf(f)
+            present[f] = v5
+        I.ctx.assume(z3.And(fields['unit_length'] >= 0, fields['version'] >= 0, fields['version'] < 65536,
+                            fields['debug_abbrev_offset'] >= 0, fields['address_size'] >= 0, fields['address_size'] < 256,
+                            end >= p + 11, end <= L))
+        stream.pos = end
+        return SRec(fields, 'Container', None, present)
+    lay.custom = custom
+    LAYOUTS[name] = lay
+
+
+_cu_header_layout('Dwarf_CU_header')
